@@ -509,6 +509,7 @@ fn gen_c08(rng: &mut Rng, tier: &str, emit: Emit) {
 }
 
 fn gen_c16(rng: &mut Rng, tier: &str, emit: Emit) {
+    huge_vectors(emit);
     for ty in small_types() {
         for v in all_small(&ty, 9) {
             emit(line("counts", &[&v]));
@@ -1129,7 +1130,27 @@ fn related_pairs(rng: &mut Rng, lt: &Ty, rt: &Ty) -> Vec<(String, String)> {
     out
 }
 
+/// one heap vector longer than 2^32 bits (512 MiB): counts, equality and hashing must not truncate lengths to 32 bits
+fn huge_vectors(emit: Emit) {
+    // needs about 1 GiB for a moment: skipped (not failed) where the machine or its cgroup does not have 3 GiB to spare
+    let avail_kb = std::fs::read_to_string("/proc/meminfo").ok().and_then(|m| {
+        m.lines().find(|l| l.starts_with("MemAvailable:")).and_then(|l| l.split_whitespace().nth(1).and_then(|x| x.parse::<u64>().ok()))
+    }).unwrap_or(0);
+    let cgroup_ok = match std::fs::read_to_string("/sys/fs/cgroup/memory.max") {
+        Ok(s) => s.trim() == "max" || s.trim().parse::<u64>().map_or(true, |b| b >= 3 << 30),
+        Err(_) => true,
+    };
+    if avail_kb < 3 * 1024 * 1024 || !cgroup_ok {
+        return;
+    }
+    let n: usize = (1usize << 32) + 64;
+    for ps in ["0", "5,4294967296"] {
+        emit(line("hugecounts", &[&s(n), ps]));
+    }
+}
+
 fn gen_c10(rng: &mut Rng, tier: &str, emit: Emit) {
+    huge_vectors(emit);
     for ty in small_types() {
         for v in all_small(&ty, 6) {
             emit(line("hash", &[&v]));
